@@ -110,15 +110,16 @@ def _xml(s):
 
 def sheet_source(kids, tag):
     """CSS text of a sheet; starts with a long comment so that the 'trunc' mode (first 20 bytes) is an
-    unterminated comment, i.e. a truncated sheet without any complete rule."""
-    out = ['/* sheet %s ---------------------------------------- */' % tag]
+    unterminated comment, i.e. a truncated sheet without any complete rule.  A removed reference keeps its
+    rule (the declaration or the src is dropped), a removed @import disappears."""
+    out = ['/* sheet %s ---------------------------------------- */' % tag.replace('*', '')]
     for k in kids:
-        if k.get('removed'):
-            continue
         t = k['t']
         if t == 'rule':
             out.append('#r%d{padding-left:%dpx}' % (k['id'], 1 + k['id']))
         elif t == 'import':
+            if k.get('removed'):
+                continue
             target = ('url("%s")' % k['ref']) if k.get('form', 'url') == 'url' else ('"%s"' % k['ref'])
             out.append('@import %s%s;' % (target, (' ' + k['media']) if k.get('media') else ''))
         elif t == 'font':
@@ -126,6 +127,10 @@ def sheet_source(kids, tag):
             if srcs:
                 out.append('@font-face{font-family:f%d;src:%s}' % (
                     k['id'], ','.join('url("%s")' % s['ref'] for s in srcs)))
+            else:
+                out.append('@font-face{font-family:f%d}' % k['id'])
+        elif k.get('removed'):
+            out.append('#b%d%s{}' % (k['id'], '::before' if t == 'content' else ''))
         elif t == 'bg':
             out.append('#b%d{background-image:url("%s")}' % (k['id'], k['ref']))
         elif t == 'lsi':
@@ -175,9 +180,9 @@ def build_world(doc):
         elif t in ('img', 'object', 'embed'):
             image(it)
         elif t in ('attlink', 'attanchor'):
-            world[it['abs']] = (b'attachment payload %d' % it['id'], MIME['blob'], 'attach')
+            world[it['abs']] = (b'att:' + it['abs'].encode(), MIME['blob'], 'attach')
     for i, a in enumerate(doc.get('opt_attachments', [])):
-        world[a['abs']] = (b'option attachment payload %d' % i, MIME['blob'], 'attach')
+        world[a['abs']] = (b'att:' + a['abs'].encode(), MIME['blob'], 'attach')
     return world
 
 
@@ -294,7 +299,12 @@ class RecFile(io.BytesIO):
 
 WRONG_FOR = {'image': ('css', b'/* not an image */\n#zz{color:red}\n'),
              'sheet': ('png', None), 'font': ('png', None), 'use': ('png', None), 'attach': ('png', None)}
-HTML_404 = b'<!DOCTYPE html><html><head><title>404</title></head><body><h1>Not found</h1></body></html>'
+# an ordinary error page: HTML, not well-formed XML (unclosed meta/br, bare ampersand)
+HTML_404 = (b'<!DOCTYPE html><html><head><meta charset=utf-8><title>404</title></head><body><h1>Not found</h1>'
+            b'<p>try again & again<br></body></html>')
+# an XHTML error page: well-formed XML whose root is not <svg>
+XHTML_404 = (b'<?xml version="1.0"?><html xmlns="http://www.w3.org/1999/xhtml"><head><title>404</title></head>'
+             b'<body><h1>Not found</h1></body></html>')
 
 
 def make_fetcher(world, fails, rec, forms=None, redirect=None):
@@ -326,6 +336,8 @@ def make_fetcher(world, fails, rec, forms=None, redirect=None):
             mime = MIME[ext]
         elif mode == 'html':
             data, mime = HTML_404, 'text/html'
+        elif mode == 'xhtml':
+            data, mime = XHTML_404, 'application/xhtml+xml'
         form = forms.get(url) or ('file_obj' if int(hashlib.md5(url.encode()).hexdigest()[:4], 16) % 2 else 'string')
         res = {'mime_type': mime}
         if form == 'file_obj':
@@ -613,3 +625,123 @@ def render_case(case):
     res['audit_bad'] = judge_audit(_AUDIT['events'])
     res['audit_n'] = len(_AUDIT['events'])
     return res
+
+
+# ------------------------------------------------------------------------------------------ direct calls
+
+def url_join_direct(case):
+    """case: {base: str|None, ref: str, allow: bool} -> the real url_join's result (None when dropped)"""
+    from weasyprint import urls
+    return urls.url_join(case['base'], case['ref'], case['allow'], 'c20 %s', ('x',))
+
+
+def url_abs_direct(case):
+    from weasyprint import urls
+    return [bool(urls.url_is_absolute(case['s'])), urls.iri_to_uri(case['s'])]
+
+
+class _MyErr(Exception):
+    pass
+
+
+_EXC = {'OSError': OSError, 'ValueError': ValueError, 'KeyError': KeyError, 'TimeoutError': TimeoutError,
+        'FileNotFoundError': FileNotFoundError, 'ConnectionResetError': ConnectionResetError,
+        'RuntimeError': RuntimeError, 'AssertionError': AssertionError, 'ZeroDivisionError': ZeroDivisionError,
+        'EOFError': EOFError, 'LookupError': LookupError, 'TypeError': TypeError, 'AttributeError': AttributeError,
+        'MemoryError': MemoryError, 'RecursionError': RecursionError, 'StopIteration': StopIteration,
+        'UnicodeError': UnicodeError, '_MyErr': _MyErr, 'NotImplementedError': NotImplementedError,
+        'KeyboardInterrupt': KeyboardInterrupt, 'SystemExit': SystemExit, 'GeneratorExit': GeneratorExit}
+
+GOOD = {0: lambda: raster_bytes(5), 1: lambda: b'p{color:red}', 2: lambda: b'p{color:red}',
+        3: font_bytes, 4: lambda: b'payload'}
+
+
+class _EvFile:
+    def __init__(self, data, read_exc, close_raises, events):
+        self._b, self._read_exc, self._close_raises, self._ev = io.BytesIO(data), read_exc, close_raises, events
+        self._read_seen = False
+
+    def read(self, *a):
+        if not self._read_seen:
+            self._ev.append(['read', 1])
+            self._read_seen = True
+        if self._read_exc:
+            raise _EXC[self._read_exc]('read failed')
+        return self._b.read(*a)
+
+    def close(self):
+        self._ev.append(['closed', 1])
+        if self._close_raises:
+            raise OSError('close failed')
+
+
+def consume_direct(case):
+    """one real consumer against one described fetcher answer; see C20Fetch.consume_judge"""
+    import pydyf
+    from weasyprint import CSS, Attachment, DEFAULT_OPTIONS, HTML
+    from weasyprint.images import get_image_from_uri
+    from weasyprint.css import find_stylesheets
+    from weasyprint.text.fonts import FontConfiguration
+    from weasyprint.pdf.anchors import write_pdf_attachment
+    k, fr = case['consumer'], case['fret']
+    events = []
+    URL = 'http://x/u'
+
+    def fetcher(url):
+        events.append(['called', 'u' if url == URL else url])
+        if fr['t'] == 'raise':
+            raise _EXC[fr['cls']](fr.get('msg', 'boom'))
+        if fr['t'] == 'notdict':
+            return {'none': None, 'list': [], 'str': 'text', 'int': 3}[fr['v']]
+        d = {}
+        if fr.get('string'):
+            d['string'] = GOOD[k]()
+        if fr.get('file'):
+            f = fr['file']
+            d['file_obj'] = _EvFile(GOOD[k](), None if f['read'] == 'ok' else f['read'], f.get('close_raises'), events)
+        if fr.get('mime', 'absent') != 'absent':
+            d['mime_type'] = fr['mime']
+        if fr.get('redirected'):
+            d['redirected_url'] = fr['redirected']
+        return d
+
+    code, name = None, ''
+    with capture_logs() as logs:
+        try:
+            if k == 0:
+                img = get_image_from_uri(cache={}, url_fetcher=fetcher, options=DEFAULT_OPTIONS, url=URL)
+                code = 0 if img is not None else 1
+            elif k == 1:
+                h = HTML(string='<link rel=stylesheet href="%s">' % URL, base_url='http://x/', url_fetcher=fetcher)
+                sheets = list(find_stylesheets(h.wrapper_element, 'print', fetcher, h.base_url, None, None, []))
+                code = 0 if any(_matcher_rules(s.matcher) for s in sheets) else 1
+            elif k == 2:
+                css = CSS(string='@import url(%s);' % URL, url_fetcher=fetcher, base_url='http://x/')
+                code = 0 if _matcher_rules(css.matcher) else 1
+            elif k == 3:
+                fc = FontConfiguration()
+                fc.add_font_face({'src': [('external', URL)], 'font_family': 'fz%d' % case.get('n', 0)}, fetcher)
+                failed = any('cannot be loaded' in m for _, m in logs.records)
+                code = 1 if failed else 0
+            else:
+                r = write_pdf_attachment(pydyf.PDF(), Attachment(url=URL, url_fetcher=fetcher), False)
+                code = 0 if r is not None else 1
+        except BaseException as exc:   # noqa
+            code, name = 2, type(exc).__name__
+    evs = []
+    for e in events:
+        evs.append(e)
+    if any('Error when closing stream' in m for _, m in logs.records):
+        evs.append(['closewarning', 'u'])
+    logged = any(lv in ('ERROR', 'WARNING') or (k == 3 and 'Failed to load font' in m) for lv, m in logs.records
+                 if 'Error when closing stream' not in m)
+    return {'code': code, 'name': name, 'events': evs, 'logged': logged,
+            'logs': [(lv, m[:120]) for lv, m in logs.records if lv != 'DEBUG'][:5]}
+
+
+def _matcher_rules(m):
+    for attr in ('id_selectors', 'class_selectors', 'lower_local_name_selectors', 'namespace_selectors', 'other_selectors'):
+        v = getattr(m, attr, None)
+        if v:
+            return True
+    return False
